@@ -734,7 +734,7 @@ Section KeysetProofs.
         { unfold known_status in Hks. unfold scalar_ok, two31. rewrite !orb_true_iff in Hks. rewrite !N.eqb_eq in Hks.
           apply orb_true_iff. left. apply N.ltb_lt. lia. }
         assert (E2 : scalar_ok TEnum (ks_prefix s) = true).
-        { unfold known_prefix in Hkp. unfold scalar_ok, two31. rewrite !orb_true_iff in Hkp. rewrite !N.eqb_eq in Hkp.
+        { unfold known_prefix, legacy_prefix in Hkp. unfold scalar_ok, two31. rewrite !orb_true_iff in Hkp. rewrite !N.eqb_eq in Hkp.
           apply orb_true_iff. left. apply N.ltb_lt. lia. }
         rewrite E1, E2. cbn [andb]. rewrite andb_true_r. apply N.ltb_lt. apply Hrange. exact He.
     - cbn [pks_keys]. destruct es; [contradiction | discriminate].
